@@ -32,8 +32,8 @@ MUTATIONS = [
          old="""            note.id = f"{note.id}-{i+1}\"""",
          new="""            note.id = f"{note.id}-1\""""),
     dict(prop="C09", name="object end registered without the segment offset", file="partitura/score.py",
-         old="""                        tp_end = part.get_or_add_point(o.end.t + delta)""",
-         new="""                        tp_end = part.get_or_add_point(o.end.t + (delta if delta < 0 else 0))"""),
+         old="""                        tp_end = part.get_or_add_point(min(o.end.t, end.t) + delta)""",
+         new="""                        tp_end = part.get_or_add_point(min(o.end.t, end.t) + (delta if delta < 0 else 0))"""),
     dict(prop="C09", name="replace_refs keeps the reference to the original object", file="partitura/utils/generic.py",
          old="""                    if o in o_map:
                         o_new = o_map[o]
@@ -96,4 +96,23 @@ MUTATIONS = [
     dict(prop="C09", name="Score argument of unfold_part_minimal is not copied", file="partitura/score.py",
          old="""        unfolded_score = deepcopy(score)""",
          new="""        unfolded_score = score"""),
+]
+
+# ---- generator audit (docs/audit/C09.md): one breakage per widened dimension, exposed by the new shape only
+MUTATIONS += [
+    dict(prop="C09", name="audit: Score argument, only the first part is unfolded", file="partitura/score.py",
+         old="""        for score in new_score.parts:""", new="""        for score in new_score.parts[:1]:"""),
+    dict(prop="C09", name="audit: unfold_part_alignment takes the variant that covers the alignment least", file="partitura/score.py",
+         old="""    best_idx = np.where(coverage == coverage.max())[0]""", new="""    best_idx = np.where(coverage == coverage.min())[0]"""),
+    dict(prop="C09", name="audit: all_repeats wins over no_repeats when both are given", file="partitura/score.py",
+         old="""        if self.no_repeats:\n            # currently this is in higher priority than the full sequence""",
+         new="""        if self.no_repeats and not self.all_repeats:\n            # currently this is in higher priority than the full sequence"""),
+    dict(prop="C09", name="audit: segment ids run through the 26 letters only", file="partitura/score.py",
+         old="""            "ID": chr(init_character + i),""", new="""            "ID": chr(init_character + i % 26),"""),
+    dict(prop="C09", name="audit: unpitched notes are not copied into the unfolding", file="partitura/score.py",
+         old="""                            System,\n                            Page,\n                        ),""",
+         new="""                            System,\n                            Page,\n                            UnpitchedNote,\n                        ),"""),
+    dict(prop="C09", name="audit: only slurs and tuplets are cut at the segment end", file="partitura/score.py",
+         old="""                        tp_end = part.get_or_add_point(min(o.end.t, end.t) + delta)""",
+         new="""                        tp_end = part.get_or_add_point((min(o.end.t, end.t) if isinstance(o, (Slur, Tuplet)) else o.end.t) + delta)"""),
 ]
